@@ -382,9 +382,9 @@ theorem ruleAutolink_shape {st st' : IState} {silent : Bool} {o : Option Nat}
 
 /-- the inner loop: the tree stays well shaped, and as long as the opener has markers left the
     node at `idx` (the opener token) is still there and childless -/
-theorem matchInner_shape (fns : Nat → Option Wrap) (mk : Char) (idx : Nat) :
+theorem matchInner_shape (fns : Nat → Option Wrap) (mk : Char) (room idx : Nat) :
     ∀ (fuel : Nat) (opener : Marker) (ms : MatchSt) (opener' : Marker) (ms' : MatchSt),
-      matchInner fns mk idx fuel opener ms = .ok (opener', ms') →
+      matchInner fns mk room idx fuel opener ms = .ok (opener', ms') →
       AllShapeList ms.children →
       (opener.remaining > 0 → ∃ t, ms.children[idx]? = some t ∧ t.children = []) →
       AllShapeList ms'.children ∧
@@ -400,6 +400,10 @@ theorem matchInner_shape (fns : Nat → Option Wrap) (mk : Char) (idx : Nat) :
     unfold matchInner at h
     split at h
     · next hcond =>
+      -- the nesting-limit `break` returns the state unchanged
+      split at h
+      · simp only [Except.ok.injEq, Prod.mk.injEq] at h
+        obtain ⟨rfl, rfl⟩ := h; exact ⟨hm, hi⟩
       simp only at h
       split at h
       · simp only [Except.ok.injEq, Prod.mk.injEq] at h
@@ -465,8 +469,8 @@ theorem matchInner_shape (fns : Nat → Option Wrap) (mk : Char) (idx : Nat) :
     · simp only [Except.ok.injEq, Prod.mk.injEq] at h
       obtain ⟨rfl, rfl⟩ := h; exact ⟨hm, hi⟩
 
-theorem matchOuter_shape (fns : Nat → Option Wrap) (mk : Char) (minIdx : Nat) :
-    ∀ (k : Nat) (ms ms' : MatchSt), matchOuter fns mk minIdx k ms = .ok ms' →
+theorem matchOuter_shape (fns : Nat → Option Wrap) (mk : Char) (room minIdx : Nat) :
+    ∀ (k : Nat) (ms ms' : MatchSt), matchOuter fns mk room minIdx k ms = .ok ms' →
       AllShapeList ms.children → AllShapeList ms'.children := by
   intro k
   induction k with
@@ -477,6 +481,10 @@ theorem matchOuter_shape (fns : Nat → Option Wrap) (mk : Char) (minIdx : Nat) 
     intro ms ms' h hm
     unfold matchOuter at h
     simp only at h
+    -- the read of `children[idx + 1]` (for `inner_depth`) changes no node
+    split at h
+    · simp at h
+    next nxt hnxt =>
     split at h
     · simp at h
     · next tok htok =>
@@ -491,7 +499,7 @@ theorem matchOuter_shape (fns : Nat → Option Wrap) (mk : Char) (minIdx : Nat) 
           have hgo' : AllShapeList ms1.children ∧
               (opener'.remaining > 0 → ∃ t, ms1.children[minIdx + k]? = some t ∧ t.children = []) := by
             split at hgo
-            · exact matchInner_shape fns mk _ _ _ _ _ _ hgo hm (fun _ => ⟨tok, htok, htc⟩)
+            · exact matchInner_shape fns mk _ _ _ _ _ _ _ hgo hm (fun _ => ⟨tok, htok, htc⟩)
             · simp only [Except.ok.injEq, Prod.mk.injEq] at hgo
               obtain ⟨rfl, rfl⟩ := hgo; exact ⟨hm, fun _ => ⟨tok, htok, htc⟩⟩
           split at h
@@ -512,8 +520,8 @@ theorem matchOuter_shape (fns : Nat → Option Wrap) (mk : Char) (minIdx : Nat) 
                 exact allShape_remark htc' _ _
           · exact ih _ _ h hgo'.1
 
-theorem scanAndMatch_shape {fns : Nat → Option Wrap} {mk : Char} {cs out : List Node}
-    {b b' : List (Char × List Nat)} (h : scanAndMatch fns mk cs b = .ok (out, b'))
+theorem scanAndMatch_shape {fns : Nat → Option Wrap} {mk : Char} {room : Nat} {cs out : List Node}
+    {b b' : List (Char × List Nat)} (h : scanAndMatch fns mk room cs b = .ok (out, b'))
     (hc : AllShapeList cs) : AllShapeList out := by
   unfold scanAndMatch at h
   split at h
@@ -540,7 +548,7 @@ theorem scanAndMatch_shape {fns : Nat → Option Wrap} {mk : Char} {cs out : Lis
           · split at h
             · simp at h
             · next ms hms =>
-              have hok := matchOuter_shape fns mk _ _ _ _ hms hc.left
+              have hok := matchOuter_shape fns mk _ _ _ _ _ hms hc.left
               split at h
               · simp only [Except.ok.injEq, Prod.mk.injEq] at h; rw [← h.1]
                 exact hok.append (AllShapeList.single (allShape_remark hcc _ _))
